@@ -16,4 +16,13 @@ func init() {
 			"Non-trivial = at least one planned preemption actually fired in the concurrent run; distinct = distinct scenario digest (sha256 of the scenario JSON).",
 		assume: common,
 	}
+	histRule := "one scenario per seed: a history of 3-14 (thorough: up to 40) public-API calls by one task over 3-6 variables, receivers reused and aliased on purpose (z=x, z=y, x=y, all equal), swarm-drawn op groups (arithmetic, copy/attribute setters, integer/float/raw setters, text parsing, gob), NaN-producing fault events, corrupted gob payloads, malformed literals, pool faults (stale/garbage/poisoned/emptied scratch) and lowered tuning knobs. Non-trivial = at least one operation executed under the oracle; distinct = distinct scenario digest."
+	props["C08"] = &propCfg{level: "exploration", quick: tierCfg{runs: 40000, budget: 50 * time.Second}, thorough: tierCfg{runs: 20000000, budget: 12 * time.Minute},
+		rule: histRule + " Oracle: canonical-form invariant through the public API on every variable after every step (also after recovered panics and reported failures), Cmp/representation cross-invariant on every pair, SetPrec(MinPrec) exact on the receiver.", assume: common}
+	props["C09"] = &propCfg{level: "exploration", quick: tierCfg{runs: 30000, budget: 50 * time.Second}, thorough: tierCfg{runs: 20000000, budget: 12 * time.Minute},
+		rule: histRule + " Oracle A: attribute model (precision sticky unless 0, documented default otherwise; mode sticky except Copy/SetMantExp/MantExp/GobDecode-into-zero-precision). Oracle B: complete memory image (struct + mantissa up to capacity) of every variable except the receiver, and of every package-level variable, compared at every statement boundary of the running operation.", assume: common}
+	props["C10"] = &propCfg{level: "exploration", quick: tierCfg{runs: 30000, budget: 50 * time.Second}, thorough: tierCfg{runs: 20000000, budget: 12 * time.Minute},
+		rule: histRule + " Oracle: shadow execution - every step is repeated on fresh memory (deep copies of the operands taken before the live call, completely de-aliased, a zero receiver carrying only precision and mode, a clean pool) and must agree with the live, aliased, history-laden, pool-faulted call on value, sign, precision, mode, accuracy, return values and panic.", assume: common}
+	props["C04"] = &propCfg{level: "exploration", quick: tierCfg{runs: 30000, budget: 50 * time.Second}, thorough: tierCfg{runs: 20000000, budget: 12 * time.Minute},
+		rule: histRule + " Oracle: operand-class model (invalid <=> ErrNaN panic; receiver valid afterwards; results fixed by the operand classes; XOR sign of products/quotients; sign of exactly-zero sums); any other panic value on valid arguments is a violation. The first three seeds of every run are the exhaustive operand-class sweep (6^2 x 4 ops, 6^3 FMA, 6 Sqrt, x 6 modes, 3 magnitude variants) - plain enumeration, fault-free.", assume: common}
 }
